@@ -54,6 +54,15 @@ def cases(tier, seed, args):
                         D=int(rng.integers(1, 9)), T=int(rng.integers(1, 33 if q else 65)),
                         K=int(rng.integers(1, 6)), normalize=bool(i % 3), seed=int(rng.integers(1 << 30)),
                         neg=bool(rng.integers(2)), mkind=['int', 'bool', 'zero', 'scaled'][i % 4]))
+    # constant masks (all ones as floats / booleans, all twos): a unit-weight mask is not the same as no mask when
+    # normalize=False
+    plain = [l_ for l_ in lays if l_['mtype'] == 'plain'] + [l_ for l_ in lays if l_['mtype'] == 'source']
+    for i in range(12 if q else 48):
+        lay = plain[int(rng.integers(len(plain)))] if i % 4 == 3 else [l_ for l_ in plain if l_['mtype'] == 'plain'][i % 3]
+        nl = lay['n'] - 2
+        out.append(dict(t='psd', **lay, lead=[int(rng.integers(1, 3)) for _ in range(nl)], D=int(rng.integers(1, 4)), T=int(rng.integers(2, 7)),
+                        K=int(rng.integers(1, 4)), normalize=bool(i % 2), seed=int(rng.integers(1 << 30)), neg=bool(rng.integers(2)),
+                        mkind=['ones', 'ones_bool', 'const2'][(i // 2) % 3]))
     # condition_covariance
     n = 40 if q else 300
     for i in range(n):
@@ -93,9 +102,11 @@ def _psd(case):
         mint = rng.integers(0, 4, size=shape)
         if mk == 'bool':
             mint = (mint > 1).astype(int)
+        if mk in ('ones', 'ones_bool', 'const2'):
+            mint = np.full(shape, 2 if mk == 'const2' else 1)
         if mk == 'zero':
             mint[..., :] = np.where(rng.random(shape[:-1])[..., None] < 0.5, 0, mint)
-        mc = mint.astype(bool) if mk == 'bool' else mint.astype(float)
+        mc = mint.astype(bool) if mk in ('bool', 'ones_bool') else mint.astype(float)
         if mk == 'scaled' and case['normalize']:
             scale = float(rng.choice([0.5, 0.25, 8.0, 1e-3, 1e3, 0.1]))
             mc = mc * scale
